@@ -220,7 +220,8 @@ fn main() {
             }
             let total = 5u64.pow((n * p) as u32);
             alphabet_matrices += total;
-            let whiten = n > p;
+            // quick: whiteners on the alphabet matrices up to n*p = 6 (the 4x2 shape only in thorough)
+            let whiten = n > p && n * p <= ctx.pick(6usize, 9usize);
             let chunk = 1500u64;
             let mut s = 0;
             while s < total {
@@ -339,6 +340,8 @@ fn main() {
         });
     }
     let job_ids = AtomicU64::new(0);
+    let printed = AtomicU64::new(0);
+    let by_family: Mutex<std::collections::BTreeMap<String, u64>> = Mutex::new(Default::default());
     par_sweep(&ctx, "c16 sweep", &jobs, |job| {
         let id = job_ids.fetch_add(1, Ordering::Relaxed);
         inflight.lock().unwrap().push((
@@ -378,6 +381,22 @@ fn main() {
         for _ in 0..cnt.indet {
             ctx.indeterminate();
         }
+        {
+            let mut g = by_family.lock().unwrap();
+            for x in &viols {
+                let fam = x.case.get("family").and_then(|f| f.as_str()).unwrap_or("?");
+                let fam = fam.split(':').next().unwrap_or("?");
+                let fl = x.case.get("float").and_then(|f| f.as_str()).unwrap_or("?");
+                let key = format!("{} | {} | {}", x.sig, fam, fl);
+                // debugging aid: C16_PRINT=<substring of "sig | family | float"> prints the first few matches
+                if let Ok(pat) = std::env::var("C16_PRINT") {
+                    if key.contains(&pat) && printed.fetch_add(1, Ordering::Relaxed) < 6 {
+                        println!("DEBUG {} :: {} :: {}", key, x.what, x.case);
+                    }
+                }
+                *g.entry(key).or_insert(0u64) += 1;
+            }
+        }
         ctx.violations(viols);
         cnt.evals = 0;
         cnt.nontrivial = 0;
@@ -390,6 +409,7 @@ fn main() {
     for (k, n) in &total.lock().unwrap().extra {
         ctx.extra(k, json!(n));
     }
+    ctx.extra("violations_by_signature_family_float", json!(*by_family.lock().unwrap()));
     let done = jobs_done.load(Ordering::Relaxed);
     ctx.extra("jobs_completed", json!(done));
     ctx.extra("alphabet_matrices_completed", json!(alphabet_done.load(Ordering::Relaxed)));
